@@ -912,7 +912,7 @@ META = {
              'every raw value class (strategy short names, all columns of the shipped barcode/index whitelists) lies in the alphabet the decoder keeps '
              'and excludes ":" ";"; all header parsers bind the Illumina fields in canonical order and set every key of the re-assembled name; MI = '
              'BC+RX+aA, SM = LY_bi; over-long headers raise. Does NOT decide equality of decoded and original values for arbitrary runtime strings.'),
-    'technique': 'static analysis: interval analysis / constant folding of codec tables, tag-table set comparison, taint-style check of quality strings, character-class containment over static whitelist data, sibling agreement of header parsers; token evaluation of the header parsers (header fields are opaque tokens moved through the code by the checker\'s interpreter)',
+    'technique': 'static analysis: interval analysis / constant folding of codec tables, tag-table set comparison, taint-style check of quality strings, character-class containment over static whitelist data, sibling agreement of header parsers; token evaluation of the header parsers (header fields are opaque tokens moved through the code by the checker\'s interpreter); small-scope abstract execution of the TaggedRecord codec (all 94 phred characters, name round trip through fromTaggedBamRecord / parse_scmo_header, sample name on every cell-index layout)',
     'design_ref': 'DESIGN.md section 5, C04',
 }
 
